@@ -16,6 +16,7 @@ import (
 	"testing"
 	"time"
 
+	"github.com/robustirc/robustirc/internal/ircserver"
 	"github.com/robustirc/robustirc/internal/robust"
 )
 
@@ -37,6 +38,7 @@ type vSeqResult struct {
 	Violations []*vViol       `json:"violations"`
 	Samples    []string       `json:"samples"`
 	Depth      int            `json:"depth"`
+	Mixed      int            `json:"mixed_encoding_schedules,omitempty"`
 	HarnessErr string         `json:"harness_error,omitempty"`
 }
 
@@ -94,7 +96,9 @@ func TestVerifC10(t *testing.T) {
 	}
 	res := &vSeqResult{EndStates: map[string]int{}, Depth: depth}
 	sigs := map[string]*vViol{}
-	alphabet := []string{"postA", "retryA", "postB", "retryB", "deathA", "snapshot", "restart"}
+	// S is a services link (PASS services=..., SERVER): its messages carry a prefix and are handled by the
+	// server-to-server command table, retries must be recognised all the same
+	alphabet := []string{"postA", "retryA", "postB", "retryB", "postS", "retryS", "deathA", "snapshot", "restart"}
 	base := t.TempDir()
 	seqs := vSeqs(alphabet, depth)
 	if rp := os.Getenv("VERIF_REPLAY"); rp != "" {
@@ -135,7 +139,19 @@ func TestVerifC10(t *testing.T) {
 		for _, l := range []string{"NICK b", "USER b 0 * :b", "JOIN #c"} {
 			n.post(B, l, next())
 		}
-		sess := map[string]vSession{"A": A, "B": B}
+		S, _ := n.createSession()
+		for _, l := range []string{"PASS :services=svcpw", "SERVER services.robustirc.net 1 :Services", "NICK ChanServ 1 1422134861 services localhost.net services.robustirc.net 0 :Channel Services"} {
+			if r := n.post(S, l, next()); r.Code != 200 {
+				t.Fatalf("services link: %d %s", r.Code, r.Body)
+			}
+		}
+		sess := map[string]vSession{"A": A, "B": B, "S": S}
+		line := func(who, text string) string {
+			if who == "S" {
+				return ":ChanServ PRIVMSG #c :" + text
+			}
+			return "PRIVMSG #c :" + text
+		}
 		last := map[string]*c10Posted{}
 		var posted []*c10Posted
 		res.Sequences++
@@ -145,7 +161,7 @@ func TestVerifC10(t *testing.T) {
 			switch {
 			case strings.HasPrefix(op, "post"):
 				p := &c10Posted{sess: who, text: fmt.Sprintf("msg-%s-%d", who, oi), cmid: next()}
-				if r := n.post(sess[who], "PRIVMSG #c :"+p.text, p.cmid); r.Code != 200 {
+				if r := n.post(sess[who], line(who, p.text), p.cmid); r.Code != 200 {
 					res.report(sigs, "C10", "POST refused", fmt.Sprintf("op %d of %v: %d %s", oi, seq, r.Code, r.Body), seq)
 				}
 				last[who] = p
@@ -156,8 +172,7 @@ func TestVerifC10(t *testing.T) {
 					continue
 				}
 				res.Retries++
-				data := "PRIVMSG #c :" + p.text
-				r := n.post(sess[who], data, p.cmid)
+				r := n.post(sess[who], line(who, p.text), p.cmid)
 				if r.Code != 200 {
 					res.report(sigs, "C10", "retry not acknowledged", fmt.Sprintf("op %d of %v: retry of cmid %d answered %d %s", oi, seq, p.cmid, r.Code, r.Body), seq)
 				}
@@ -187,7 +202,7 @@ func TestVerifC10(t *testing.T) {
 			}
 			// oracle after every operation
 			for w, p := range last {
-				if got := ircServer.LastPostMessage(robust.Id{Id: sess[w].Num}); got != p.cmid {
+				if got := ircserver.VerifMarker(ircServer, robust.Id{Id: sess[w].Num}); got != p.cmid {
 					res.report(sigs, "C10", "duplicate-detection marker is not the last client message id after "+op, fmt.Sprintf("after op %d of %v: session %s marker %d, last posted %d", oi, seq, w, got, p.cmid), seq)
 				}
 			}
@@ -203,34 +218,39 @@ func TestVerifC10(t *testing.T) {
 				}
 			}
 		}
-		// delivery: each message exactly once, in post order, to the other member
-		for w, other := range map[string]string{"A": "B", "B": "A"} {
-			msgs, err := n.drain(sess[other], "")
+		// delivery: each message exactly once, in post order, to the other member(s)
+		for _, recv := range []string{"A", "B"} {
+			msgs, err := n.drain(sess[recv], "")
 			if err != nil {
 				fail(err)
 				break
 			}
-			var got []string
-			for _, m := range msgs {
-				if i := strings.Index(m.Data, "PRIVMSG #c "); i >= 0 && strings.Contains(m.Data, "msg-") {
-					got = append(got, strings.TrimPrefix(m.Data[i+len("PRIVMSG #c "):], ":"))
+			for _, w := range []string{"A", "B", "S"} {
+				if w == recv {
+					continue
 				}
-				if strings.Contains(m.Data, "death-") {
-					res.report(sigs, "C10", "message of death was delivered", m.Data, seq)
+				var got []string
+				for _, m := range msgs {
+					if i := strings.Index(m.Data, "PRIVMSG #c "); i >= 0 && strings.Contains(m.Data, "msg-"+w+"-") {
+						got = append(got, strings.TrimPrefix(m.Data[i+len("PRIVMSG #c "):], ":"))
+					}
+					if strings.Contains(m.Data, "death-") {
+						res.report(sigs, "C10", "message of death was delivered", m.Data, seq)
+					}
 				}
-			}
-			var want []string
-			for _, p := range posted {
-				if p.sess == w && !p.died {
-					want = append(want, p.text)
+				var want []string
+				for _, p := range posted {
+					if p.sess == w && !p.died {
+						want = append(want, p.text)
+					}
 				}
-			}
-			if strings.Join(got, ",") != strings.Join(want, ",") {
-				kind := "delivered sequence differs from posted sequence"
-				if len(got) > len(want) {
-					kind = "message delivered more than once"
+				if strings.Join(got, ",") != strings.Join(want, ",") {
+					kind := "delivered sequence differs from posted sequence"
+					if len(got) > len(want) {
+						kind = "message delivered more than once"
+					}
+					res.report(sigs, "C10", kind, fmt.Sprintf("sequence %v: session %s posted %v, session %s received %v", seq, w, want, recv, got), seq)
 				}
-				res.report(sigs, "C10", kind, fmt.Sprintf("sequence %v: session %s posted %v, session %s received %v", seq, w, want, other, got), seq)
 			}
 		}
 		res.EndStates[fmt.Sprintf("%d posted, %d log entries", len(posted), len(n.logEntries()))]++
